@@ -262,7 +262,8 @@ def fresh_replay(binpath, path, expect_cls):
 
 def confirm_and_report(prop, bins, seed, batches, known):
     """Gate, minimise and report violations.  Returns (n_new, n_known, infra_error)."""
-    os.makedirs(os.path.join(VERIF, "replays"), exist_ok=True)
+    repdir = os.environ.get("VERIF_REPLAY_DIR") or os.path.join(VERIF, "replays")
+    os.makedirs(repdir, exist_ok=True)
     groups, known_hits = {}, {}
     for variant, b in batches:
         for v in b.viol:
@@ -278,7 +279,7 @@ def confirm_and_report(prop, bins, seed, batches, known):
     for (cls, sk), items in sorted(groups.items(), key=lambda kv: (str(kv[0][0]), str(kv[0][1])))[:4]:
         variant, v = sorted(items, key=lambda it: (it[0] == "asan", int(it[1].get("i", 0) or 0)))[0]
         binpath = os.path.join(bins[variant], PROPS[prop]["engine"])
-        out = os.path.join(VERIF, "replays", "%s-%s-%s-%s.json" % (prop, variant, seed, v.get("i", "x")))
+        out = os.path.join(repdir, "%s-%s-%s-%s.json" % (prop, variant, seed, v.get("i", "x")))
         env = dict(os.environ, SIM_VARIANT=variant)
         if "plan" in v:
             planfile = out + ".plan"
@@ -321,8 +322,9 @@ def dump_samples(binpath, prop, seed, idxs):
     return out
 
 def write_evidence(prop, ev):
-    os.makedirs(os.path.join(VERIF, "evidence"), exist_ok=True)
-    path = os.path.join(VERIF, "evidence", "%s.json" % prop)
+    evdir = os.environ.get("VERIF_EVIDENCE_DIR") or os.path.join(VERIF, "evidence")     # (override used only when judging seeded changes)
+    os.makedirs(evdir, exist_ok=True)
+    path = os.path.join(evdir, "%s.json" % prop)
     tmp = path + ".tmp"
     json.dump(ev, open(tmp, "w"), indent=1, sort_keys=False)
     os.replace(tmp, path)
